@@ -120,7 +120,7 @@ def run_schedule(lab, sched, program, prefix, rng=None, max_steps=600):
     s = sched.new_run(choose, max_steps)
     st = lab.SchedStream()
     out = lab.Output(st, lab.AnsiFormatter(forced=True))
-    pi = lab.ProgressIndicator(out, interval=100)
+    pi = lab.ProgressIndicator(out, fmt=" {indicator} {message}", interval=100)
     import time
 
     err = None
@@ -280,7 +280,7 @@ def run_stress(sh, trials):
     for k in range(trials):
         st = YieldStream()
         out = Output(st, AnsiFormatter(forced=True))
-        pi = ProgressIndicator(out, interval=1)
+        pi = ProgressIndicator(out, fmt=" {indicator} {message}", interval=1)
         kind = rng.choice(["normal", "normal", "ValueError", "SystemExit", "BodyCancelled"])
         msgs = {"start-msg", "end-msg"}
         plan_msgs = [("message number %d %s" % (i, "x" * rng.randint(0, 20))).strip() for i in range(rng.randint(3, 12))]
@@ -353,7 +353,7 @@ def run_manual(sh, maxlen):
         for ops in itertools.product(range(len(OPS)), repeat=n):
             clocks = [rng.choice(STEPS_MS) for _ in ops]
             st = Rec()
-            pi = ProgressIndicator(Output(st, AnsiFormatter(forced=True)), interval=100)
+            pi = ProgressIndicator(Output(st, AnsiFormatter(forced=True)), fmt=" {indicator} {message}", interval=100)
             started = False
             msgs = set()
             cur = None
